@@ -60,6 +60,11 @@ def gen_assign(rng):
             else:
                 v = domgen.valid_value(rng, kind, attr)
 
+            if attr.endswith('indent') and rng.chance(0.3):
+                # an int the API may or may not take: either way the
+                # assignment is all-or-nothing
+                v = rng.choice([-1, -4, -100])
+
             ops.append({'op': 'set', 'tree': tn, 'path': path, 'attr': attr,
                         'value': v})
         elif k < 15 and rng.chance(0.5):
@@ -108,10 +113,57 @@ def rename(ops, old, new):
     return out
 
 
+def reordered(rng, ops):
+    """The same ops with runs of assignments to distinct attributes of one
+    node in another order, and keyword arguments in another order: the
+    resulting tree is the same."""
+    out = []
+    run = []
+
+    def flush():
+        if len(run) > 1 and len(set(o['attr'] for o in run)) == len(run):
+            k = rng.below(3)
+
+            if k == 0:
+                run.reverse()
+            elif k == 1:
+                rng.shuffle(run)
+
+        out.extend(run)
+        del run[:]
+
+    for op in ops:
+        if op.get('op') == 'set' and (not run or
+                                      run[-1].get('path') == op.get('path')):
+            run.append(op)
+            continue
+
+        flush()
+
+        if op.get('op') == 'set':
+            run.append(op)
+            continue
+
+        if isinstance(op.get('attrs'), dict) and len(op['attrs']) > 1:
+            op = dict(op, attrs={k: op['attrs'][k]
+                                 for k in reversed(list(op['attrs']))})
+
+        out.append(op)
+
+    flush()
+    return out
+
+
 def gen_equality(rng):
     base = domgen.gen_tree_ops(rng, 'T1', max_changes=2, max_files=2,
-                               p_set=0.4, full=rng.chance(0.7))
-    ops = base + rename(base, 'T1', 'T2')
+                               p_set=rng.choice([0.4, 0.4, 0.9]),
+                               full=rng.chance(0.7))
+    twin = rename(base, 'T1', 'T2')
+
+    if rng.chance(0.5):
+        twin = reordered(rng, twin)
+
+    ops = base + twin
     ops.append({'op': 'eq', 'a': 'T1', 'b': 'T2'})
     ops.append({'op': 'ne', 'a': 'T1', 'b': 'T2'})
 
